@@ -108,5 +108,10 @@ pub fn extras() -> Vec<&'static str> {
         "1,CONSUMO,ILU,ELECTRICIDAD,10,10\n1,PRODUCCION,EL_INSITU,15,40\n1,CONSUMO,NEPB,ELECTRICIDAD,20,5\n2,CONSUMO,CAL,RED1,30,30",
         // district networks and solar thermal with surplus
         "1,CONSUMO,CAL,RED1,40\n1,CONSUMO,REF,RED2,10\n2,CONSUMO,ACS,TERMOSOLAR,7\n2,PRODUCCION,TERMOSOLAR,12\n3,CONSUMO,VEN,ELECTRICIDAD,4",
+        // metadata the library entry points must not act on (k_exp, area and location are arguments), with exports
+        "#META CTE_KEXP: 1.0\n#META CTE_AREAREF: 50\n#META CTE_LOCALIZACION: CANARIAS\n1,CONSUMO,ILU,ELECTRICIDAD,10,10\n1,PRODUCCION,EL_INSITU,15,40\n1,CONSUMO,NEPB,ELECTRICIDAD,2,5\n2,CONSUMO,CAL,GASNATURAL,30,30",
+        // cogeneration exporting in one step, on-site electricity used in another one
+        "CONSUMO,ILU,ELECTRICIDAD,10,10,2\nCONSUMO,COGEN,GASNATURAL,0,0,80\nPRODUCCION,EL_COGEN,0,0,20\nPRODUCCION,EL_INSITU,2,0,0",
+        "CONSUMO,ILU,ELECTRICIDAD,10,10,2\nCONSUMO,COGEN,GASNATURAL,0,40,80\nPRODUCCION,EL_COGEN,0,10,20\nPRODUCCION,EL_INSITU,6,1,0\nCONSUMO,NEPB,ELECTRICIDAD,1,1,1",
     ]
 }
